@@ -65,7 +65,13 @@ func checkSource(t interface{ Fatalf(string, ...any) }, s plug.Src, cfg any) {
 	if !ok || k != s.Canon {
 		t.Fatalf("yaml.Marshal(plugin %q) = %s, want single key %q", s.Text, yb, s.Canon)
 	}
-	// re-parse the marshalled plugin list and marshal again: a no-op
+	// re-parse the marshalled plugin list and marshal again: a no-op. (JSON is read as YAML, and YAML
+	// limits an implicit mapping key to 1024 characters: a longer source cannot be a key of the input
+	// at all - a limit of the format, not of the canonicalisation rule)
+	if len(s.Canon) > 1000 {
+		rec.Excluded("re-parse leg: source longer than YAML's 1024-character key limit")
+		return
+	}
 	list := pipeline.Plugins{p}
 	lb, err := json.Marshal(list)
 	if err != nil {
